@@ -6,26 +6,6 @@ through in-place ancestors lies outside the region rewritten by every operation 
 -/
 namespace Pfst.Reconcile
 
-mutual
-/-- The node is in place and nothing reconcile looks at was edited below it: every node below is in place, scalars are `==`
-to the marked ones, list fields have the marked length and hold nodes only (a `None` / `str` element of a list field is put
-again on every reconcile: `Global.names`, `arguments.kw_defaults`, findings F8 / `no_change_false`), no `Dict` pairs. -/
-def stillN (mark : T) (np : NP) (rel : Path) : T → Bool
-  | .node (.tree l) _ cs =>
-    inPlace np rel l && (markAt mark (qOf l)).isNode && (markAt mark (qOf l)).kids.length == cs.length
-      && stillFs mark (qOf l) 0 cs
-  | _ => false
-def stillFs (mark : T) (q : Path) : Nat → List T → Bool
-  | _, [] => true
-  | fi, .many _ md items :: r =>
-    md != 2 && (markAt mark (q ++ [fi])).kids.length == items.length && stillEs mark q fi 0 items && stillFs mark q (fi + 1) r
-  | fi, .node o k cs :: r => stillN mark (.fst 0 q) [fi] (.node o k cs) && stillFs mark q (fi + 1) r
-  | fi, c :: r => !(pyNe c (erase (markAt mark (q ++ [fi])))) && stillFs mark q (fi + 1) r
-def stillEs (mark : T) (q : Path) (fi : Nat) : Nat → List T → Bool
-  | _, [] => true
-  | i, x :: r => stillN mark (.fst 0 q) [fi, i] x && stillEs mark q fi (i + 1) r
-end
-
 theorem headD_eraseL_drop (l : List T) (i : Nat) : (eraseL (l.drop i)).headD .nil = erase ((l[i]?).getD .nil) := by
   cases h : l.drop i with
   | nil =>
